@@ -109,6 +109,8 @@ def run(tier, seed):
     r = ck.build(extract=True)
     types = render.impl_types()
     nvals = 60 if tier == 'quick' else 600
+    if common.REDUCED:
+        nvals = 15
     nmut = 8 if tier == 'quick' else 16
     cases = []   # (tname, bs, origin)
     rng = ck.rng
@@ -185,6 +187,49 @@ def run(tier, seed):
             ck.violation('id-not-hash-of-current-encoding', 'a transaction object whose id was read once and that was then '
                          'altered in place (%s) reports an id that is not the double SHA-256 of its encoding' % step,
                          {'type': 'tx', 'origin': 'identity-after-' + step})
+    # ---- signing: an unsigned transaction that arrived as bytes (placeholders where signatures go) is signed by the wallet;
+    #      the signed transaction's id is the hash of ITS encoding, and the unsigned object is what it was
+    try:
+        import chaingen
+        from skepticoin.datatypes import Transaction as _T, OutputReference as _OR, Output as _O
+        from skepticoin.signing import SECP256k1PublicKey as _PK
+        from skepticoin.wallet import Wallet as _W, sign_transaction as _sign
+        kk = chaingen.Keys()
+        wl = _W({pk: sk.to_string() for pk, sk in kk.by_pk.items()}, [], {pk: 'a' for pk in kk.pks})
+        for k in range(6 if tier == 'quick' else 60):
+            nin = rng.choice([1, 2, 3])
+            refs = [(gen.rb(rng, 32), rng.randrange(4)) for _ in range(nin)]
+            unsigned = chaingen.mk_tx([(h_, i_, None) for h_, i_ in refs], [(rng.randrange(1, 10 ** 6), rng.choice(kk.pks))])
+            raw_unsigned = unsigned.serialize()
+            arrived = _T.deserialize(raw_unsigned)
+            id_unsigned = arrived.hash()
+            utx = {_OR(h_, i_): _O(100, _PK(rng.choice(kk.pks))) for h_, i_ in refs}
+            signed = _sign(wl, utx, arrived)
+            ck.case(('sign', k), kind='id-after-signing')
+            if signed.hash() != sha256d(signed.serialize()):
+                ck.violation('id-not-hash-of-current-encoding', 'the transaction returned by sign_transaction for an unsigned '
+                             'transaction that had been decoded from bytes reports an id that is not the double SHA-256 of its '
+                             'encoding', {'type': 'tx', 'origin': 'sign-decoded-unsigned', 'bytes': raw_unsigned.hex()})
+            if arrived.serialize() != raw_unsigned or arrived.hash() != id_unsigned:
+                ck.violation('signing-alters-its-argument', 'sign_transaction changed the unsigned transaction it was given',
+                             {'type': 'tx', 'origin': 'sign-decoded-unsigned', 'bytes': raw_unsigned.hex()})
+    except Exception as e:
+        import traceback
+        ck.disagree('signing identity probe raised %r' % (e,), {'trace': traceback.format_exc()[-400:]})
+    # heights at the top of the encodable range (the length prefix of a number grows to 10 octets at 2^63)
+    from skepticoin.datatypes import BlockSummary as _BS
+    for hgt in (2 ** 62 - 1, 2 ** 62, 2 ** 63 - 1, 2 ** 63, 2 ** 64 - 1, 2 ** 70):
+        try:
+            sm = _BS(hgt, b'\x01' * 32, b'\x02' * 32, 5, b'\x03' * 32, 7)
+            bs_ = sm.serialize()
+            back = _BS.deserialize(bs_)
+            okh = back.height == hgt and back.serialize() == bs_
+        except Exception as e:
+            okh = False
+        ck.case(('height', hgt), kind='summary-height-2^%d' % (hgt.bit_length() - 1))
+        if not okh:
+            ck.violation('roundtrip', 'a block summary with height %d does not survive encode-then-decode' % hgt,
+                         {'type': 'summary', 'origin': 'big-height', 'height': hgt})
     # exhaustive short VLQ strings
     maxlen = 2 if tier == 'quick' else 3
     import itertools
